@@ -110,6 +110,77 @@ fn short_fn(name: &str) -> String {
     base.rsplit("::").next().unwrap_or(base).to_string()
 }
 
+const REGARGS_SRC: &str = r#"use std::hint::black_box;
+#[inline(never)]
+fn mix(depth: u64, lo: u64, hi: u64, acc: u64) -> u64 {
+    if depth == 0 {
+        return black_box(lo ^ hi ^ acc);
+    }
+    let acc = acc.wrapping_mul(31).wrapping_add(lo);
+    mix(depth - 1, lo + 1, hi + 0x100, acc) + black_box(hi)
+}
+fn main() {
+    let r = mix(black_box(2), black_box(0x11), black_box(0x2200), black_box(0x330000));
+    println!("{r}");
+}
+"#;
+
+fn regargs_witness(scratch: &str, out: &mut Out, errors: &mut Vec<String>) {
+    use bugstalker::debugger::variable::dqe::{Dqe, Selector};
+    use bugstalker::debugger::variable::value::{SupportedScalar, Value};
+    let bin = match e2e::compile(scratch, "regargs", REGARGS_SRC, &["-C", "opt-level=1"], None) {
+        Ok(b) => b,
+        Err(e) => {
+            errors.push(format!("regargs: compile: {e}"));
+            return;
+        }
+    };
+    let mut s = match e2e::launch(&bin, &[]) {
+        Ok(s) => s,
+        Err(e) => {
+            errors.push(format!("regargs: launch: {e}"));
+            return;
+        }
+    };
+    if let Err(e) = s.dbg.set_breakpoint_at_fn("mix") {
+        errors.push(format!("regargs: break mix: {e}"));
+        return;
+    }
+    let mut r = s.dbg.start_debugee();
+    let (mut depth, mut lo, mut hi, mut acc) = (2u64, 0x11u64, 0x2200u64, 0x330000u64);
+    for k in 0..3 {
+        if let Err(e) = &r {
+            errors.push(format!("regargs: run to activation {k}: {e}"));
+            return;
+        }
+        for (name, want) in [("depth", depth), ("lo", lo), ("hi", hi), ("acc", acc)] {
+            out.value_checks += 1;
+            let got: Option<u64> = s.dbg.read_argument(Dqe::Variable(Selector::by_name(name, false))).ok().and_then(|rs| {
+                rs.first().and_then(|r| match r.value() {
+                    Value::Scalar(sv) => match sv.value {
+                        Some(SupportedScalar::U64(v)) => Some(v),
+                        Some(SupportedScalar::Usize(v)) => Some(v as u64),
+                        _ => None,
+                    },
+                    _ => None,
+                })
+            });
+            // a value the debugger cannot read (optimised away) is not a wrong value; a readable one must be the real one
+            if let Some(g) = got {
+                if g != want {
+                    out.fail("reg-args", serde_json::json!({"what": format!("opt-level 1, activation {k} of mix(depth, lo, hi, acc) at its entry: `arg {name}` shows {g:#x}, the program passed {want:#x}"), "program": "regargs.rs"}));
+                }
+            }
+            *out.hist.entry(format!("regargs:{}", if got.is_some() { "read" } else { "unreadable" })).or_default() += 1;
+        }
+        acc = acc.wrapping_mul(31).wrapping_add(lo);
+        depth -= if depth > 0 { 1 } else { 0 };
+        lo += 1;
+        hi += 0x100;
+        r = s.dbg.continue_debugee();
+    }
+}
+
 struct Out {
     prelude: String,
     cases: Vec<String>,
@@ -567,6 +638,9 @@ pub fn run(args: &[String]) -> i32 {
         total_stops += stops;
         drop(s);
     }
+    // ---- register-resident arguments: an opt-level 1 function with four integer parameters, stopped at its entry in three
+    // activations; `arg NAME` must show what the program really passed (rdi, rsi, rdx, rcx through the DWARF register numbers)
+    regargs_witness(&scratch, &mut out, &mut errors);
     // cases files (shards share the prelude with the tree definitions)
     let mut cfile = crate::coqfmt::CasesFile::new(&["Model.Scope"], "c19_case", "c19_check");
     cfile.prelude = out.prelude.clone();
